@@ -1,6 +1,8 @@
 #include "common.h"
+void scen_c04(mt_case *);
 void scen_c05(mt_case *);
 const mt_scenario mt_scenarios[] = {
+  { 4, "C04 mutex", scen_c04 },
   { 5, "C05 condition variables", scen_c05 },
 };
 const int mt_n_scenarios = sizeof mt_scenarios / sizeof mt_scenarios[0];
